@@ -312,7 +312,11 @@ func (w *vC13WC) Close() error { return nil }
 
 func vC13RunTrunc(c vSx) (obs vSx, oracle string) {
 	under := &vC13WC{}
-	tw := &truncWriter{w: under}
+	// the withholding writer as the library builds it for a compression writer over [under]
+	_, tw, okParts := vC13FlateParts(compressNoContextTakeover(under, defaultCompressionLevel))
+	if !okParts {
+		return vL(vZ(1), vZ(70)), "compression writer has no flate.Writer / withholding writer pair"
+	}
 	var all []byte
 	for _, ch := range c.l[1].l {
 		// the returned count is not part of the property (upstream returns a short count with a
@@ -322,19 +326,20 @@ func vC13RunTrunc(c vSx) (obs vSx, oracle string) {
 		}
 		all = append(all, ch.b...)
 	}
+	twp, twn := vC13TruncState(tw)
 	var emitted []byte
 	for _, w := range under.log {
 		emitted = append(emitted, w...)
 	}
 	// c13_trunc stated directly: everything but the last four bytes went through, those are retained
 	if len(all) >= 4 {
-		if string(emitted) != string(all[:len(all)-4]) || string(tw.p[:]) != string(all[len(all)-4:]) {
-			oracle = fmt.Sprintf("stream of %d bytes: emitted %d bytes, retained %x", len(all), len(emitted), tw.p)
+		if string(emitted) != string(all[:len(all)-4]) || string(twp) != string(all[len(all)-4:]) {
+			oracle = fmt.Sprintf("stream of %d bytes: emitted %d bytes, retained %x", len(all), len(emitted), twp)
 		}
-	} else if len(emitted) != 0 || tw.n != len(all) || string(tw.p[:tw.n]) != string(all) {
-		oracle = fmt.Sprintf("short stream of %d bytes: emitted %d, n=%d", len(all), len(emitted), tw.n)
+	} else if len(emitted) != 0 || twn != len(all) || string(twp[:twn]) != string(all) {
+		oracle = fmt.Sprintf("short stream of %d bytes: emitted %d, n=%d", len(all), len(emitted), twn)
 	}
-	return vL(vZ(0), vC13Chunks(under.log), vB(tw.p[:]), vI(tw.n)), oracle
+	return vL(vZ(0), vC13Chunks(under.log), vB(twp), vI(twn)), oracle
 }
 
 // ---------------------------------------------------------------- family 3: the RFC parser itself
